@@ -187,6 +187,8 @@ type ledDev struct {
 	ncolors int
 	paniced bool
 	slowSrv time.Duration
+	// slowSink: per-message delay of the MIDI receiver (8-slot queue); 0: a large queue that is read at the end
+	slowSink time.Duration
 }
 
 var sysMu sync.Mutex
@@ -209,6 +211,14 @@ func (l *ledDev) start(waitFrame time.Duration) string {
 	srv.slow = l.slowSrv
 	r := l.r
 	r.midiOut = make(chan midi.Event, 1<<14)
+	if l.slowSink > 0 {
+		// the 8-slot output queue of cmd/hidi/main.go and a receiver that takes its time: a burst (panic: 129 messages)
+		// then lasts longer than one LED refresh cycle
+		r.slow, r.slowDelay = true, l.slowSink
+		r.midiOut = make(chan midi.Event, 8)
+		r.slowAck = make(chan bool)
+		go r.slowReader(r.midiOut, r.slowAck)
+	}
 	r.midiIn = make(chan midi.Event)
 	r.sigs = make(chan os.Signal, 1024)
 	inputDevice := input.Device{Name: "Dummy", DeviceType: input.KeyboardDevice, AbsInfos: r.axes,
@@ -489,6 +499,8 @@ func runScript(s lifeScript, hid int, concurrent bool, withLeds bool) (out []str
 	l := &ledDev{r: v, evname: fmt.Sprintf("event%d", 100+hid), hidraw: hid, devName: "fake", leds: lifeLeds, ncolors: len(lifeLeds)}
 	if !withLeds {
 		l.hidraw = 0 // no sysfs node for hidraw0 is ever created: the LED loop gives up looking for its controller
+	} else if hid%4 == 2 && concurrent {
+		l.slowSink = 150 * time.Microsecond
 	} else if hid%4 == 1 {
 		// a server that takes longer than one retry interval (250 ms) to answer during the connection phase
 		l.slowSrv = 400 * time.Millisecond
